@@ -20,7 +20,7 @@ ASSUMPTIONS = [
 
 def outcome_of(spec: Dict[str, Any]) -> Dict[str, Any]:
     try:
-        sess = S.prepare_link(spec) if "sources" in spec else S.prepare(spec, S.build_classes(spec))
+        sess = S.prepare_units(spec) if "units" in spec else (S.prepare_link(spec) if "sources" in spec else S.prepare(spec, S.build_classes(spec)))
         exp = S.export_plan(sess)
         return {"plan": S.canon_plan(exp), "_exp": exp, "_sess": sess}
     except BaseException as e:
@@ -53,9 +53,9 @@ def strip_tfs_producer(o: Dict[str, Any]) -> Any:
     out = []
     for lab, reqs, res in o["plan"]:
         if lab.startswith("tfs:"):
-            out.append([cut(lab), [], res])
+            continue  # how many transform steps are planned, and for whom, is part of what varies
         else:
-            out.append([lab, sorted({cut(r) for r in reqs}), res])
+            out.append([lab, sorted({cut(r) for r in reqs if not r.startswith("tfs:")}), res])
     return sorted(out, key=lambda x: json.dumps(x))
 
 
@@ -127,7 +127,10 @@ def run(ctx: Ctx) -> None:
     nprep = 3 if ctx.quick else 6
     specs = []
     for k in range(nreq):
-        if ctx.rng.random() < 0.6:
+        r0 = ctx.rng.random()
+        if r0 < 0.15:
+            specs.append(S.gen_units_spec(ctx.rng))  # two independent cross-framework joins requested together
+        elif r0 < 0.6:
             specs.append(S.gen_link_spec(ctx.rng))
         else:
             fws = ctx.rng.choice([("pa",), ("pa", "pd"), ("py",), ("pd", "py")])
